@@ -4,6 +4,7 @@ import (
 	"bytes"
 	"errors"
 	"fmt"
+	"io"
 	"sync"
 	"sync/atomic"
 	"time"
@@ -246,6 +247,343 @@ func c15Concurrent(r *mon.Run, k int) error {
 				ops = append(ops, bankOp{Client: op.ClientId, Desc: bankModel.DescribeOperation(op.Input, op.Output), Call: op.Call, Return: op.Return})
 			}
 			r.Violation("bank-history-not-linearizable", fmt.Sprintf("the recorded credit/debit/balance history of one account (%d clients) has no sequential explanation", k), map[string]any{"clients": k, "account": acc, "history": ops}, nil)
+		}
+	}
+	return nil
+}
+
+// c15Contention: n clients are released behind a barrier onto ONE account (or
+// onto n accounts drawing on one shared pool) that was credited exactly k
+// times the price of the RPC they all issue, k < n. A debit is atomic - check
+// and take under one lock - so exactly k of them are served, every successful
+// debit is the full price, and the balance ends at zero. The handlers are
+// additionally lined up right before DebitAccount by a rendezvous in the
+// recording proxy, so that the debits really start together.
+func c15Contention(r *mon.Run, worker int, rounds int) error {
+	c, err := newC15(r, uint64(500+worker), 1)
+	if err != nil {
+		return err
+	}
+	defer c.close()
+	defer func() { r.Count("handler_panics_recovered", c.lab.HostPanics()) }()
+	rng := r.RNG(0x15E000 + uint64(worker))
+	c.steps = nil
+
+	// rendezvous of the handlers at the proxy's DebitAccount
+	var rmu sync.Mutex
+	var waiting, expect int
+	var gate chan struct{}
+	var holdStore bool
+	crowd := make([]proto4.Account, 150_000)
+	for i := range crowd {
+		crowd[i][0], crowd[i][1], crowd[i][2], crowd[i][31] = byte(i), byte(i>>8), byte(i>>16), 0xcc
+	}
+	arm := func(n int) {
+		rmu.Lock()
+		waiting, expect, gate = 0, n, make(chan struct{})
+		rmu.Unlock()
+	}
+	perturb := func(kind string) {
+		if kind != rhplab.EvDebit {
+			return
+		}
+		rmu.Lock()
+		g := gate
+		if g == nil {
+			rmu.Unlock()
+			return
+		}
+		waiting++
+		if waiting >= expect {
+			gate = nil
+			hold := holdStore
+			rmu.Unlock()
+			if hold {
+				// keep the Contractor's own lock busy for a few milliseconds while the
+				// handlers are let go: they all queue on it, and a mutex whose waiters
+				// have waited that long hands over strictly first-come-first-served,
+				// so every caller's first critical section runs before anyone's second
+				started := make(chan struct{})
+				go func() {
+					close(started)
+					c.lab.Contractor.AccountBalances(crowd)
+				}()
+				<-started
+				time.Sleep(300 * time.Microsecond)
+			}
+			close(g)
+			return
+		}
+		rmu.Unlock()
+		select {
+		case <-g:
+		case <-time.After(200 * time.Millisecond): // stragglers never decide anything
+		}
+	}
+	c.lab.Log.Perturb.Store(&perturb)
+	defer c.lab.Log.Perturb.Store(nil)
+
+	// an account with a long list of attached, practically empty pools: every
+	// debit on it walks the whole list twice (affordability, then taking), which
+	// makes the Contractor's critical sections long enough to overlap
+	const deepPools = 2000
+	deepAcc := len(c.accKeys)
+	c.acct(deepAcc)
+	tiny0 := len(c.poolKeys)
+	c.pool(tiny0 + deepPools - 1)
+	var tiny []proto4.Account
+	for i := 0; i < deepPools; i++ {
+		tiny = append(tiny, c.pool(tiny0+i))
+	}
+	for off := 0; off < deepPools; off += 1000 {
+		hs0, err := c.lab.State(c.contracts[0].ID)
+		if err != nil {
+			return inconclusive("contract state: %v", err)
+		}
+		c.contracts[0].Revision = hs0.Revision
+		if _, err := rhp.RPCReplenishPools(ctxBG(), c.cl, rhp.RPCReplenishPoolsParams{Pools: tiny[off : off+1000], Target: types.NewCurrency64(1), Contract: c.contracts[0]}, c.cs, c.signer()); err != nil {
+			return inconclusive("replenish tiny pools: %v", err)
+		}
+		if err := c.quiesce(); err != nil {
+			return err
+		}
+		var inputs []rhp.PoolAttachInput
+		for i := off; i < off+1000; i++ {
+			inputs = append(inputs, rhp.PoolAttachInput{Account: c.acct(deepAcc), PoolKey: c.poolKeys[tiny0+i]})
+		}
+		if err := rhp.RPCAttachPools(ctxBG(), c.cl, inputs, 3*time.Hour); err != nil {
+			return inconclusive("attach tiny pools: %v", err)
+		}
+		if err := c.quiesce(); err != nil {
+			return err
+		}
+	}
+	sumTiny := func() (sum types.Currency) {
+		bs, _ := c.lab.Contractor.PoolBalances(tiny)
+		for _, b := range bs {
+			sum = sum.Add(b)
+		}
+		return
+	}
+
+	type roundCase struct {
+		Round   int    `json:"round"`
+		Op      string `json:"op"`
+		Shared  string `json:"shared"` // account | pool
+		Callers int    `json:"callers"`
+		Funded  int    `json:"funded_for"`
+	}
+	for round := 0; round < rounds; round++ {
+		n := 4 + rng.IntN(5)
+		k := rng.IntN(n) // funds for fewer debits than callers (0 .. n-1)
+		if round%7 == 0 {
+			k = 1
+		}
+		op := c.debitOps()[[]int{0, 0, 0, 0, 2, 3, 1}[rng.IntN(7)]]
+		price := c.costOf(op)
+		funds := price.Mul64(uint64(k))
+		if rng.IntN(4) == 0 && k > 0 {
+			funds = funds.Add(price.Sub(types.NewCurrency64(1))) // ... and almost one more
+		}
+		shared := []string{"account", "pool", "deep", "deep"}[rng.IntN(4)]
+		rc := roundCase{Round: round, Op: op.Op, Shared: shared, Callers: n, Funded: k}
+		c.cur = &c15Step{Op: fmt.Sprintf("contention %+v", rc)}
+		c.steps = []c15Step{*c.cur}
+
+		// fresh account(s) / pool, funded exactly
+		base := len(c.accKeys)
+		accs := make([]int, n)
+		for i := range accs {
+			switch shared {
+			case "pool":
+				accs[i] = base + i
+			case "deep":
+				accs[i] = deepAcc
+			default:
+				accs[i] = base
+			}
+		}
+		roundPool := -1
+		c.acct(base + n)
+		var poolAcc proto4.Account
+		hs0, err := c.lab.State(c.contracts[0].ID)
+		if err != nil {
+			return inconclusive("contract state: %v", err)
+		}
+		c.contracts[0].Revision = hs0.Revision
+		if shared == "account" {
+			if !funds.IsZero() {
+				if _, err := rhp.RPCFundAccounts(ctxBG(), c.cl, c.cs, c.signer(), c.contracts[0], []proto4.AccountDeposit{{Account: c.acct(base), Amount: funds}}); err != nil {
+					return inconclusive("fund: %v", err)
+				}
+			}
+		} else {
+			p := len(c.poolKeys)
+			poolAcc = c.pool(p)
+			target := funds
+			if target.IsZero() {
+				target = types.NewCurrency64(1) // a pool must exist to be attached
+				funds = target
+			}
+			if _, err := rhp.RPCReplenishPools(ctxBG(), c.cl, rhp.RPCReplenishPoolsParams{Pools: []proto4.Account{poolAcc}, Target: target, Contract: c.contracts[0]}, c.cs, c.signer()); err != nil {
+				return inconclusive("replenish pool: %v", err)
+			}
+			if err := c.quiesce(); err != nil {
+				return err
+			}
+			var inputs []rhp.PoolAttachInput
+			for _, a := range accs {
+				inputs = append(inputs, rhp.PoolAttachInput{Account: c.acct(a), PoolKey: c.poolKeys[p]})
+				if shared == "deep" {
+					break // one account: the funded pool goes to the END of its long list
+				}
+			}
+			if err := rhp.RPCAttachPools(ctxBG(), c.cl, inputs, 3*time.Hour); err != nil {
+				return inconclusive("attach: %v", err)
+			}
+			if shared == "deep" {
+				roundPool = p
+				funds = funds.Add(sumTiny())
+			}
+		}
+		if err := c.quiesce(); err != nil {
+			return err
+		}
+		seq0 := c.lab.Log.Seq()
+
+		// n callers behind a barrier
+		rmu.Lock()
+		holdStore = round%2 == 0
+		rmu.Unlock()
+		arm(n)
+		var wg sync.WaitGroup
+		start := make(chan struct{})
+		errs := make([]error, n)
+		for i := 0; i < n; i++ {
+			wg.Add(1)
+			go func(i int) {
+				defer wg.Done()
+				raw := c.lab.NewRaw()
+				key := c.accKeys[accs[i]]
+				tok := proto4.AccountToken{HostKey: c.lab.HostKey.PublicKey(), Account: proto4.Account(key.PublicKey()), ValidUntil: time.Now().Add(3 * time.Hour)}
+				tok.Signature = key.SignHash(tok.SigHash())
+				<-start
+				switch op.Op {
+				case "read":
+					req := proto4.RPCReadSectorRequest{Prices: c.prices, Token: tok, Root: c.stored[op.Sector%len(c.stored)].Root, Offset: op.Offset, Length: op.Length}
+					var resp proto4.RPCReadSectorResponse
+					errs[i] = raw.RoundTrip(proto4.RPCReadSectorID, &req, &resp, nil, false, func(rd io.Reader) error {
+						_, err := io.CopyN(io.Discard, rd, int64(resp.DataLength))
+						return err
+					})
+				case "verify":
+					req := proto4.RPCVerifySectorRequest{Prices: c.prices, Token: tok, Root: c.stored[op.Sector%len(c.stored)].Root, LeafIndex: uint64(i)}
+					errs[i] = raw.RoundTrip(proto4.RPCVerifySectorID, &req, new(proto4.RPCVerifySectorResponse), nil, false, nil)
+				default:
+					data := make([]byte, op.Length)
+					data[0] = byte(i)
+					req := proto4.RPCWriteSectorRequest{Prices: c.prices, Token: tok, DataLength: op.Length}
+					errs[i] = raw.RoundTrip(proto4.RPCWriteSectorID, &req, new(proto4.RPCWriteSectorResponse), data, false, nil)
+				}
+			}(i)
+		}
+		close(start)
+		wg.Wait()
+		arm(0)
+		if err := c.quiesce(); err != nil {
+			return err
+		}
+		r.Eval()
+		r.Count("contention_rounds", 1)
+		r.Distinct(fmt.Sprintf("contention:%s:%s:%d-of-%d", op.Op, shared, k, n))
+
+		served, refused, other := 0, 0, 0
+		for _, e := range errs {
+			switch {
+			case e == nil:
+				served++
+			case errors.Is(e, proto4.ErrNotEnoughFunds):
+				refused++
+			default:
+				other++
+			}
+		}
+		okDebits, services := 0, 0
+		var debited types.Currency
+		for _, ev := range c.lab.Log.Since(seq0) {
+			switch ev.Kind {
+			case rhplab.EvDebit:
+				if ev.Err == "" {
+					okDebits++
+					debited = debited.Add(ev.Usage.RenterCost())
+					if !ev.Usage.RenterCost().Equals(price) {
+						c.report("debit-underpaid", fmt.Sprintf("a successful debit was recorded for %v H, the RPC is priced %v H", hs(ev.Usage.RenterCost()), hs(price)), map[string]any{"round": rc})
+					}
+				}
+			case rhplab.EvReadSector, rhplab.EvStoreSector:
+				services++
+			}
+		}
+		var left types.Currency
+		if shared == "account" {
+			left, _ = c.lab.Contractor.AccountBalance(c.acct(base))
+		} else {
+			bs, _ := c.lab.Contractor.PoolBalances([]proto4.Account{poolAcc})
+			left = bs[0]
+			if shared == "deep" {
+				left = left.Add(sumTiny())
+			}
+			for _, a := range accs {
+				if b, _ := c.lab.Contractor.AccountBalance(c.acct(a)); !b.IsZero() {
+					c.report("contended-balance-wrong", "an account that was never funded holds a balance after drawing on a shared pool", map[string]any{"round": rc})
+				}
+			}
+		}
+		want := funds.Div(price).Big().Uint64()
+		if want > uint64(n) {
+			want = uint64(n)
+		}
+		detail := map[string]any{"round": rc, "funds": hs(funds), "price": hs(price), "served": served, "refused_for_funds": refused, "other_errors": other,
+			"successful_debits": okDebits, "service_calls": services, "balance_left": hs(left)}
+		if other > 0 {
+			r.Inconclusive(fmt.Sprintf("contention round %+v: %d RPCs ended with an unexpected error, e.g. %v", rc, other, firstOther(errs)))
+			continue
+		}
+		switch {
+		case uint64(served) > want || uint64(okDebits) > want || uint64(services) > want:
+			c.report("served-more-than-funded:"+shared, fmt.Sprintf("%d RPCs were served (%d debits succeeded) on funds that pay for %d", served, okDebits, want), detail)
+		case uint64(served) < want:
+			c.report("contended-debit-refused-despite-funds:"+shared, fmt.Sprintf("only %d RPCs were served on funds that pay for %d", served, want), detail)
+		default:
+			r.Count("contention_rounds_exact", 1)
+		}
+		if expectLeft := funds.Sub(price.Mul64(min(want, uint64(served)))); uint64(served) <= want && !left.Equals(expectLeft) {
+			c.report("contended-balance-wrong", fmt.Sprintf("balance left is %v H, expected funds - served x price = %v H", hs(left), hs(expectLeft)), detail)
+		}
+		if roundPool >= 0 {
+			if err := rhp.RPCDetachPools(ctxBG(), c.cl, []rhp.PoolDetachInput{{Account: c.acct(deepAcc), Pool: c.pool(roundPool), Signer: c.accKeys[deepAcc]}}, 3*time.Hour); err != nil {
+				return inconclusive("detach: %v", err)
+			}
+			if err := c.quiesce(); err != nil {
+				return err
+			}
+			r.Count("contention_rounds_on_long_pool_list", 1)
+		}
+		if served > 0 {
+			r.Count("contention_rpcs_served", served)
+		}
+		r.Count("contention_rpcs_refused", refused)
+		c.lab.Mux.Forget(c.lab.Mux.Streams())
+		c.lab.Log.Trim(c.lab.Log.Seq())
+		c.aud.seq = c.lab.Log.Seq()
+	}
+	return nil
+}
+
+func firstOther(errs []error) error {
+	for _, e := range errs {
+		if e != nil && !errors.Is(e, proto4.ErrNotEnoughFunds) {
+			return e
 		}
 	}
 	return nil
